@@ -483,14 +483,12 @@ bool encode_array::shift(size_t len)
 	// move data segment to front
 	if (!len) {
 		size_t max, len = _state.done + _state.scratch;
-		if ((max = _d.length() <= len)) {
+		if ((max = _d.length()) <= len) {
 			return false;
 		}
-		uint8_t *d = reinterpret_cast<uint8_t *>(_d.base());
-		size_t shift = max - len;
-		memcpy(d, d + shift, len);
-		_d.set(len);
-		return true;
+		/* private data: remove the consumed part in front */
+		buffer *b = mpt_array_reserve(&_d, max, 0);
+		return b && mpt_buffer_cut(b, 0, max - len) >= 0;
 	}
 	// consume terminated data
 	if (len > _state.done) {
